@@ -511,7 +511,7 @@ loop:
 		if blocked && p.HangIsViolation {
 			agg.mu.Lock()
 			agg.Violations = append(agg.Violations, CaseViolation{Case: cases[open], V: Violation{
-				Key:  fmt.Sprintf("hang:%s", caseKey(cases[open])),
+				Key:  "hang:" + caseClass(p, cases[open]),
 				What: "scenario never finished: every library/harness goroutine is blocked (deadlock/hang)", Detail: summary}})
 			agg.mu.Unlock()
 		} else {
@@ -539,9 +539,11 @@ loop:
 	return rest
 }
 
-func caseKey(c Case) string {
-	c.Idx = 0
-	return JSON(c)
+func caseClass(p *Prop, c Case) string {
+	if p.CaseClass != nil {
+		return p.CaseClass(c)
+	}
+	return c.Kind
 }
 
 func recordCrash(agg *Agg, c Case, what, detail string) {
@@ -550,7 +552,7 @@ func recordCrash(agg *Agg, c Case, what, detail string) {
 	agg.Crashes++
 	if agg.Prop.CrashIsViolation {
 		agg.Violations = append(agg.Violations, CaseViolation{Case: c, V: Violation{
-			Key: "crash:" + crashSite(detail) + ":" + c.Kind, What: what, Detail: trim(detail, 6000)}})
+			Key: "crash:" + crashSite(detail) + ":" + caseClass(agg.Prop, c), What: what + " (" + caseClass(agg.Prop, c) + ")", Detail: trim(detail, 6000)}})
 	} else {
 		agg.Broken = append(agg.Broken, fmt.Sprintf("case %d (%s) crashed: %s: %s", c.Idx, c.Kind, what, trim(detail, 3000)))
 	}
@@ -562,7 +564,10 @@ var siteRe = regexp.MustCompile(`github\.com/paulmach/osm[^\s(]*\.[A-Za-z_(*).0-
 // that a crash is identified by its call site.
 func crashSite(detail string) string {
 	if m := siteRe.FindString(detail); m != "" {
-		return m
+		if i := strings.Index(m, "(0x"); i >= 0 {
+			m = m[:i]
+		}
+		return strings.TrimRight(m, "(")
 	}
 	return "unknown-site"
 }
@@ -804,7 +809,7 @@ func finish(agg *Agg, cases []Case, wall time.Duration) int {
 		dir := filepath.Join(Root, "replays", p.ID)
 		os.MkdirAll(dir, 0o755)
 		for i, cv := range fresh {
-			if i >= 25 {
+			if i >= 80 {
 				fmt.Printf("... %d further violations not written out\n", len(fresh)-i)
 				break
 			}
